@@ -3,8 +3,8 @@
 // E2 bounded-exhaustive input enumeration on the real routines; oracle = c14_oracle.hpp (Z_2 column reduction on the
 // explicit cell complex), itself cross-checked against ref::persistence over Z_3 on the signed boundary.
 //
-// One source, three build units:  -DVF_PART=0 line routine, =1 rectangle with Index=std::size_t, =2 rectangle with
-// Index=unsigned (what the Python binding uses).
+// One source, three build units:  -DVF_PART=0 line routine, =1 rectangle with Filtration_value=double, Index=std::size_t,
+// =2 rectangle with Filtration_value=float, Index=unsigned (the Python binding uses double/unsigned).
 //
 // Case encodings (replayable):   line;v=0,2,1,2        (ranks; every comparator configuration is run on them)
 //                                rect;r=3;c=3;v=0,1,...  (row-major = C order top-cell values; both output modes are run)
@@ -137,8 +137,9 @@ static void verify_line(const std::string& cfg, size_t n, const std::vector<std:
     got_idx.push_back(Triple(0, (long)calls[i].first, (long)calls[i].second));
   }
   if (zero) {
+    // the documentation of the line routine says pairs of length 0 are not part of the output
     CNT("line.zero_length_intervals_emitted", zero);
-    if (g_strict_zero_length) vf::mismatch("C14:line:" + cfg + ":zero_length_interval_emitted", std::to_string(zero) + " interval(s) with equivalent birth and death");
+    vf::mismatch("C14:line:" + cfg + ":zero_length_interval_emitted", std::to_string(zero) + " interval(s) with equivalent birth and death");
   }
   std::sort(got.begin(), got.end());
   if (got != expect) {
@@ -291,8 +292,10 @@ static void replay(const std::string& cs) {
 // =====================================================================================================================
 #if VF_PART == 1
 typedef std::size_t Index;
+typedef double Value;
 #else
 typedef unsigned Index;
+typedef float Value;
 #endif
 
 static std::map<std::pair<int, int>, c14::CellComplex> g_rect;
@@ -346,10 +349,10 @@ static bool shared_corner_vertex_footprint(int R, int C, const std::vector<int>&
 }
 
 template <bool output_index>
-static void run_mode(int R, int C, const std::vector<int>& v, const std::vector<double>& in, const std::vector<Triple>& exp_key,
+static void run_mode(int R, int C, const std::vector<int>& v, const std::vector<Value>& in, const std::vector<Triple>& exp_key,
                      const std::vector<Triple>& exp_idx, bool distinct, int min_key, int argmin, const std::string& suffix) {
   const char* mode = output_index ? "indices" : "values";
-  typedef std::conditional_t<output_index, Index, double> Out;
+  typedef std::conditional_t<output_index, Index, Value> Out;
   static std::vector<std::tuple<int, Out, Out>> raw;
   raw.clear();
   auto ret = Gudhi::cubical_complex::persistence_on_rectangle_from_top_cells<output_index>(
@@ -459,7 +462,7 @@ static void check_rect(int R, int C, const std::vector<int>& v) {
   if (fp) CNT("rect.cases_with_shared_corner_vertex_footprint", 1);
   std::string suffix = fp ? ":shared_corner_vertex" : "";
 
-  static std::vector<double> in;
+  static std::vector<Value> in;
   in.assign(v.begin(), v.end());
   run_mode<false>(R, C, v, in, exp_key, exp_idx, distinct, min_key, argmin, suffix);
   run_mode<true>(R, C, v, in, exp_key, exp_idx, distinct, min_key, argmin, suffix);
